@@ -621,6 +621,41 @@ type tblCase struct {
 	// session datetime formats (SET @@DATETIME_FORMAT), one statement each or one JSON list
 	DTFormats []string `json:"dt_formats,omitempty"`
 	DTJSON    bool     `json:"dt_json,omitempty"`
+	// KeySQL: how key i is written in GROUP BY / PARTITION BY / DISTINCT: "" the
+	// plain column k<i+1>, "t.<n>" its column number, else an expression
+	KeySQL []string `json:"key_sql,omitempty"`
+}
+
+// exprTemplates: expression keys over one key column ({1}) and possibly a
+// second column ({2}): string functions, concatenation, arithmetic, CASE, casts.
+var exprTemplates = []string{
+	"UPPER({1})", "LOWER({1})", "TRIM({1})", "{1} || ''", "{1} || 'x'", "'p:' || {1}",
+	"{1} % 2", "{1} + 0", "{1} * 2", "LEN({1})",
+	"CASE WHEN {1} IS NULL THEN 'n' ELSE {1} END", "CASE {1} WHEN 'a' THEN 1 WHEN 1 THEN 2 ELSE 0 END",
+	"STRING({1})", "INTEGER({1})", "FLOAT({1})", "COALESCE({1}, 'z')",
+	"{1} || ':' || {2}", "COALESCE(s, '-')", "x % 2", "UPPER({1}) || LOWER({2})",
+}
+
+func (c tblCase) keySQL(k int) string {
+	if k < len(c.KeySQL) && c.KeySQL[k] != "" {
+		return c.KeySQL[k]
+	}
+	return kName(k)
+}
+
+// plainKey: the key is a column reference (name or number), which is what a select list may show.
+func (c tblCase) plainKey(k int) bool {
+	return k >= len(c.KeySQL) || c.KeySQL[k] == "" || strings.HasPrefix(c.KeySQL[k], "t.")
+}
+
+func (c tblCase) exprKeyCount() int {
+	n := 0
+	for k := 0; k < c.NKeys; k++ {
+		if !c.plainKey(k) {
+			n++
+		}
+	}
+	return n
 }
 
 type tblOpt struct {
@@ -629,6 +664,7 @@ type tblOpt struct {
 	emptyBias bool // favour empty tables / filters that empty groups / no keys
 	certain   bool // key pools reduced to certainly-equal spellings (no open pairs)
 	dtFormats bool // user datetime formats; the first key column holds instants in several notations
+	exprPct   int  // share of cases whose key lists mix plain columns, column numbers and expressions
 }
 
 func genTbl(t *rapid.T, opt tblOpt) tblCase {
@@ -661,6 +697,21 @@ func genTbl(t *rapid.T, opt tblOpt) tblCase {
 	}
 	if opt.dtFormats && c.NKeys == 0 {
 		c.NKeys = 1
+	}
+	if c.NKeys > 0 && fw.Pct(t, "exprKeys", opt.exprPct) {
+		c.KeySQL = make([]string, c.NKeys)
+		for k := range c.KeySQL {
+			switch fw.Weighted(t, "keyForm", []int{30, 20, 50}) {
+			case 1:
+				c.KeySQL[k] = fmt.Sprintf("t.%d", k+2)
+			case 2:
+				other := kName((k + 1) % c.NKeys)
+				if c.NKeys == 1 {
+					other = "s"
+				}
+				c.KeySQL[k] = strings.NewReplacer("{1}", kName(k), "{2}", other).Replace(fw.PickU(t, "exprTemplate", exprTemplates))
+			}
+		}
 	}
 	var n int
 	switch {
@@ -769,24 +820,31 @@ func genTbl(t *rapid.T, opt tblOpt) tblCase {
 	}
 	if c.Kind == "distinct_group" {
 		// the select list: a proper subset of the keys, all keys, or keys and an aggregate
-		all := make([]int, c.NKeys)
-		for i := range all {
-			all[i] = i
+		// (csvq accepts only column keys in the select list: an expression key is "not a group key" there)
+		var all []int
+		for i := 0; i < c.NKeys; i++ {
+			if c.plainKey(i) {
+				all = append(all, i)
+			}
 		}
-		if c.NKeys > 1 && fw.Pct(t, "permuteSel", 30) {
+		if len(all) > 1 && fw.Pct(t, "permuteSel", 30) {
 			all = rapid.Permutation(all).Draw(t, "selPerm")
 		}
-		switch fw.Weighted(t, "selShape", []int{50, 20, 30}) {
+		shape := fw.Weighted(t, "selShape", []int{40, 30, 30})
+		if len(all) == 0 {
+			shape = 2
+		}
+		switch shape {
 		case 0:
-			if c.NKeys >= 2 {
-				c.SelKeys = all[:fw.Range(t, "selSubset", 1, c.NKeys-1)]
+			if len(all) >= 2 {
+				c.SelKeys = all[:fw.Range(t, "selSubset", 1, len(all)-1)]
 			} else {
 				c.SelKeys = all
 			}
 		case 1:
 			c.SelKeys = all
 		default:
-			c.SelKeys = all[:fw.Range(t, "selWithAgg", 1, c.NKeys)]
+			c.SelKeys = all[:fw.Range(t, "selWithAgg", 0, len(all))]
 			c.SelAgg = fw.PickU(t, "selAgg", []string{"COUNT(*)", "COUNT(x)", "SUM(x)", "LISTAGG(id, ',')"})
 		}
 	}
@@ -803,8 +861,8 @@ func (c tblCase) colNames() []string {
 
 func (c tblCase) keyCols() []string {
 	var cols []string
-	for k := 1; k <= c.NKeys; k++ {
-		cols = append(cols, fmt.Sprintf("k%d", k))
+	for k := 0; k < c.NKeys; k++ {
+		cols = append(cols, c.keySQL(k))
 	}
 	return cols
 }
@@ -914,9 +972,11 @@ func (c tblCase) aggSpecs() []aggSpec {
 		}
 	}
 	if c.NKeys > 0 {
-		specs = append(specs, aggSpec{"cnt_dk", "COUNT(DISTINCT k1)", false})
-		for _, k := range c.keyCols() {
-			specs = append(specs, aggSpec{"rep_" + k, k, true})
+		specs = append(specs, aggSpec{"cnt_dk", "COUNT(DISTINCT " + c.keySQL(0) + ")", false})
+		for k := 0; k < c.NKeys; k++ {
+			if c.plainKey(k) {
+				specs = append(specs, aggSpec{fmt.Sprintf("rep_k%d", k+1), c.keySQL(k), true})
+			}
 		}
 	}
 	return specs
@@ -941,7 +1001,7 @@ func (c tblCase) querySQL() (string, []aggSpec) {
 	case "distinct_group":
 		var items []string
 		for _, k := range c.SelKeys {
-			items = append(items, kName(k))
+			items = append(items, c.keySQL(k))
 		}
 		if c.SelAgg != "" {
 			items = append(items, c.SelAgg)
@@ -1494,7 +1554,6 @@ func checkTbl(c tblCase) (fw.Outcome, *fw.Violation) {
 	if len(c.Rows) >= 160 {
 		o.Classes = append(o.Classes, "large")
 	}
-	m := buildTblModel(c)
 
 	dir := fw.WorkDir()
 	if c.Src == "csv" {
@@ -1523,6 +1582,60 @@ func checkTbl(c tblCase) (fw.Outcome, *fw.Violation) {
 	if r := s.Exec(setup); r.Err != nil {
 		return o, fw.Harness("setup failed: %v\n%s", r.Err, setup)
 	}
+	if n := c.exprKeyCount(); n > 0 || len(c.KeySQL) > 0 {
+		// expression keys: the key value of a row is what csvq evaluates for it in a
+		// plain SELECT (no grouping, no DISTINCT involved); from here on the case is
+		// the one with these values as key cells
+		o.Classes = append(o.Classes, fmt.Sprintf("expr_keys:%d_of_%d", n, c.NKeys))
+		for k := 0; k < c.NKeys; k++ {
+			if strings.HasPrefix(c.keySQL(k), "t.") {
+				o.Classes = append(o.Classes, "column_number_key")
+				break
+			}
+		}
+		if n > 0 {
+			esql := "SELECT id, " + strings.Join(c.keyCols(), ", ") + " FROM t"
+			et, err := s.Query(esql)
+			if err != nil {
+				// the expression itself does not evaluate: nothing to bucket
+				fw.AddExtra("expr_key_eval_error", 1)
+				o.Discard = true
+				return o, nil
+			}
+			if len(et.Rows) != len(c.Rows) {
+				return o, fw.Harness("%s: %d rows, expected %d", esql, len(et.Rows), len(c.Rows))
+			}
+			evald := map[string][]val.Val{}
+			for _, r := range et.Rows {
+				evald[r[0].S] = r[1:]
+			}
+			eff := c
+			eff.Rows = make([][]val.Val, len(c.Rows))
+			for i, r := range c.Rows {
+				ev, ok := evald[r[0].S]
+				if !ok || len(ev) != c.NKeys {
+					return o, fw.Harness("%s: id %s missing", esql, r[0].S)
+				}
+				row := append([]val.Val(nil), r...)
+				for k := 0; k < c.NKeys; k++ {
+					if !c.plainKey(k) {
+						if ev[k].K == "?" {
+							o.Discard = true
+							return o, nil
+						}
+						row[1+k] = ev[k]
+					}
+				}
+				eff.Rows[i] = row
+			}
+			c = eff
+			if outsideModel(c.Rows, c.DTFormats...) {
+				o.Discard = true
+				return o, nil
+			}
+		}
+	}
+	m := buildTblModel(c)
 
 	sql, specs := c.querySQL()
 	tbl, err := s.Query(sql)
@@ -1809,8 +1922,21 @@ func (m *tblModel) checkDistinctGroup(sql string, tbl run.Tbl, o *fw.Outcome) *f
 		shape = "keys_and_aggregate"
 	case nSel == c.NKeys:
 		shape = "all_keys"
+	case c.exprKeyCount() > 0:
+		shape = "subset_of_keys_with_expr_keys"
 	}
 	o.Classes = append(o.Classes, "distinct_group:"+shape)
+	if c.exprKeyCount() > 0 {
+		plain := 0
+		for k := 0; k < c.NKeys; k++ {
+			if c.plainKey(k) {
+				plain++
+			}
+		}
+		if c.SelAgg == "" && nSel == plain {
+			o.Classes = append(o.Classes, "distinct_group:all_column_keys_selected_expr_key_unselected")
+		}
+	}
 	var proj [][]val.Val
 	var projNorms []ref.C04Tuple
 	for i, r := range m.rows {
@@ -2103,9 +2229,9 @@ var aggAssumptions = []string{
 func TestC04Group(t *testing.T) {
 	fw.Run(t, fw.Spec[tblCase]{
 		ID: "C04", Name: "group", Quick: 5000, Thorough: 100000,
-		Gen:         func(t *rapid.T) tblCase { return genTbl(t, tblOpt{kinds: []string{"group"}}) },
+		Gen:         func(t *rapid.T) tblCase { return genTbl(t, tblOpt{kinds: []string{"group"}, exprPct: 25}) },
 		Check:       checkTbl,
-		Rule:        "table (temp typed / CSV text) with unique id, 0-3 key columns drawn from clusters of spellings equal across types plus ':' and marker texts, x numeric-ish, s text; SELECT LISTAGG(id), 22 aggregates, key columns GROUP BY keys [WHERE] and a second query with HAVING; csvq's buckets vs E_strict/E_loose, every aggregate recomputed over csvq's bucket; CPU 4 with 160-230 rows in 10%; non-trivial = >=2 keys with a ':'/marker cell, or two rows equal across spellings, or an empty group; distinct by (kind, #keys, traits, cell classes, strict)",
+		Rule:        "table (temp typed / CSV text) with unique id, 0-3 key columns drawn from clusters of spellings equal across types plus ':' and marker texts (in 25% the GROUP BY list mixes plain columns, column numbers and expression keys evaluated per row through a plain SELECT; classes expr_keys:<n>_of_<m>, column_number_key), x numeric-ish, s text; SELECT LISTAGG(id), 22 aggregates, key columns GROUP BY keys [WHERE] and a second query with HAVING; csvq's buckets vs E_strict/E_loose, every aggregate recomputed over csvq's bucket; CPU 4 with 160-230 rows in 10%; non-trivial = >=2 keys with a ':'/marker cell, or two rows equal across spellings, or an empty group; distinct by (kind, #keys, traits, cell classes, strict)",
 		Assumptions: aggAssumptions,
 	})
 }
@@ -2113,7 +2239,7 @@ func TestC04Group(t *testing.T) {
 func TestC04Distinct(t *testing.T) {
 	fw.Run(t, fw.Spec[tblCase]{
 		ID: "C04", Name: "distinct", Quick: 5000, Thorough: 100000,
-		Gen:         func(t *rapid.T) tblCase { return genTbl(t, tblOpt{kinds: []string{"distinct"}}) },
+		Gen:         func(t *rapid.T) tblCase { return genTbl(t, tblOpt{kinds: []string{"distinct"}, exprPct: 20}) },
 		Check:       checkTbl,
 		Rule:        "same tables; SELECT DISTINCT keys [WHERE]: every result row is an input row, no two result rows E_strict-equal, every input row has an E_loose-equal result row; non-trivial and distinct as in group",
 		Assumptions: []string{tblAssumption},
@@ -2123,7 +2249,7 @@ func TestC04Distinct(t *testing.T) {
 func TestC04Partition(t *testing.T) {
 	fw.Run(t, fw.Spec[tblCase]{
 		ID: "C04", Name: "partition", Quick: 4000, Thorough: 80000,
-		Gen:         func(t *rapid.T) tblCase { return genTbl(t, tblOpt{kinds: []string{"partition"}}) },
+		Gen:         func(t *rapid.T) tblCase { return genTbl(t, tblOpt{kinds: []string{"partition"}, exprPct: 25}) },
 		Check:       checkTbl,
 		Rule:        "same tables; SELECT id, LISTAGG(id) OVER (PARTITION BY keys), aggregates OVER (PARTITION BY keys): the partitions reported by the rows form one partition of the table, which is held against E_strict/E_loose; every aggregate recomputed per row over its partition",
 		Assumptions: aggAssumptions,
@@ -2134,7 +2260,7 @@ func TestC04Empty(t *testing.T) {
 	fw.Run(t, fw.Spec[tblCase]{
 		ID: "C04", Name: "empty", Quick: 3000, Thorough: 60000,
 		Gen: func(t *rapid.T) tblCase {
-			return genTbl(t, tblOpt{kinds: []string{"group", "group", "partition", "distinct"}, emptyBias: true})
+			return genTbl(t, tblOpt{kinds: []string{"group", "group", "partition", "distinct"}, emptyBias: true, exprPct: 20})
 		},
 		Check:       checkTbl,
 		Rule:        "bias to empty groups: empty tables, WHERE that removes every row or whole buckets, no GROUP BY (all records are one group, also none), HAVING that removes groups: aggregates of nothing (COUNT 0, others NULL), no group without rows with GROUP BY",
@@ -3088,10 +3214,10 @@ func TestC04DistinctGroup(t *testing.T) {
 	fw.Run(t, fw.Spec[tblCase]{
 		ID: "C04", Name: "distinct_group", Quick: 3000, Thorough: 60000,
 		Gen: func(t *rapid.T) tblCase {
-			return genTbl(t, tblOpt{kinds: []string{"distinct_group"}, certain: fw.Pct(t, "certainPools", 70)})
+			return genTbl(t, tblOpt{kinds: []string{"distinct_group"}, certain: fw.Pct(t, "certainPools", 70), exprPct: 60})
 		},
 		Check:       checkTbl,
-		Rule:        "SELECT DISTINCT <select list> FROM t [WHERE] GROUP BY all of 1-3 key columns, select list = proper subset of the keys (50%), all keys (20%), keys + COUNT(*)|COUNT(x)|SUM(x)|LISTAGG(id) (30%); without aggregate the result must be the DISTINCT of the rows projected on the selected keys (no two result rows E_strict-equal, every row represented, rows from the input); with an aggregate, when the groups are determined (70% of the cases draw certainly-equal spellings only), the result is the DISTINCT of (selected keys, aggregate) of the reference groups; classes distinct_group:subset_of_keys|all_keys|keys_and_aggregate, :groups_agree_on_selected_keys",
+		Rule:        "SELECT DISTINCT <select list> FROM t [WHERE] GROUP BY 1-3 keys; in 60% the key list mixes plain columns, column numbers (t.N) and expression keys (UPPER/LOWER/TRIM, ||, % + *, LEN, CASE, STRING/INTEGER/FLOAT, COALESCE, two-column concatenations), whose per-row value is taken from a plain SELECT id, <keys> FROM t in the same session; select list = proper subset of the column keys (40%), all column keys (30%; with an unselected expression key: class distinct_group:all_column_keys_selected_expr_key_unselected), column keys + COUNT(*)|COUNT(x)|SUM(x)|LISTAGG(id) (30%) - csvq accepts no expression key in the select list; without aggregate the result must be the DISTINCT of the rows projected on the selected keys (no two result rows E_strict-equal, every row represented, rows from the input); with an aggregate, when the groups are determined (70% of the cases draw certainly-equal spellings only), the result is the DISTINCT of (selected keys, aggregate) of the reference groups; classes distinct_group:subset_of_keys|all_keys|keys_and_aggregate, :groups_agree_on_selected_keys",
 		Assumptions: []string{tblAssumption, "a grouped key column shows the value of one of the group's rows"},
 	})
 }
